@@ -20,7 +20,7 @@ GRAMMAR = re.compile(r"^ClientConnected( ClientRequested( ServerConnecting( Conn
 
 async def population(out, rng, seed, P, oport, closed, uport, n, truth, io_name, hold_evt):
     """runs n mixed connections; fills truth[src_port] = dict(...)"""
-    kinds = ["ok", "ok", "ok", "ok-early", "ok-early", "deny", "refused", "abort-before", "abort-during", "abort-after", "garbage", "tls-fail", "udp", "ok-tls", "ok-socks4", "ok-rev", "ok-upearly", "ok-upearly", "ok-backpressure", "ok-lb", "refused-lb"]
+    kinds = ["ok", "ok", "ok", "ok-early", "ok-early", "deny", "refused", "abort-before", "abort-during", "abort-after", "garbage", "tls-fail", "udp", "ok-tls", "ok-socks4", "ok-rev", "ok-upearly", "ok-upearly", "ok-backpressure", "ok-lb", "refused-lb", "ok-v6"]
 
     async def one(i):
         kind = rng.choice(kinds)
@@ -148,6 +148,23 @@ async def population(out, rng, seed, P, oport, closed, uport, n, truth, io_name,
                         await c.read_all(timeout=3)
                     except Exception:
                         pass
+                c.close()
+            elif kind == "ok-v6":
+                # a client on IPv6 loopback: the record must name [::1]:port, not some IPv4 look-alike
+                c = await open_conn("::1", P["http6"])
+                st, _ = await http_connect(c, "127.0.0.1", oport)
+                rec.update(listener="http6", ok=st == 200, src=c.local[1], source="[::1]:%d" % c.local[1], target="127.0.0.1:%d" % oport, connector="direct", outcome="success")
+                truth[rec["src"]] = rec
+                payload = keystream(seed, uid, "c2s", 100)
+                c.write(payload)
+                await c.drain()
+                got = await c.read_exact(100, timeout=15)
+                rec.update(c2s=100, s2c=len(got))
+                c.eof()
+                try:
+                    await c.read_all(timeout=5)
+                except Exception:
+                    pass
                 c.close()
             elif kind in ("deny", "refused"):
                 port = 1004 if kind == "deny" else closed
@@ -353,13 +370,14 @@ async def main(args):
     if args.thorough:
         confs += [(1000, "buffered", False), (3, "splice", True)]
     for hist, io_name, splice in confs:
-        P = {k: free_port() for k in ("http", "https", "socks", "rev", "api", "httplb")}
+        P = {k: free_port() for k in ("http", "https", "socks", "rev", "api", "httplb", "http6")}
         listeners = [
             {"name": "http", "bind": "127.0.0.1:%d" % P["http"]},
             {"name": "https", "type": "http", "bind": "127.0.0.1:%d" % P["https"], "tls": tls_server()},
             {"name": "socks", "bind": "127.0.0.1:%d" % P["socks"]},
             {"name": "rev", "type": "reverse", "bind": "127.0.0.1:%d" % P["rev"], "target": "127.0.0.1:%d" % origin.port},
             {"name": "httplb", "type": "http", "bind": "127.0.0.1:%d" % P["httplb"]},
+            {"name": "http6", "type": "http", "bind": "[::1]:%d" % P["http6"]},
         ]
         rules = [{"filter": "request.listener == \"httplb\"", "target": "lb-outer"}, {"filter": "request.target.port == 1004", "target": "deny"},
                  {"filter": "request.target.port _: [1010, 1012, 1014]", "target": "hup"},
@@ -472,6 +490,9 @@ async def main(args):
                     out.violation("state timestamps decrease", w)
                 if (states[-1] == "ErrorOccured") != bool(rec.get("error")):
                     out.violation("error text present iff the terminal state is an error is violated", w)
+                want_src = r.get("source", "127.0.0.1:%d" % src)
+                if rec.get("source") != want_src:
+                    out.violation("record names another source address than the client's", dict(w, recorded=rec.get("source"), real=want_src))
                 if r.get("listener") and rec["listener"] != r["listener"]:
                     out.violation("record names another listener than the one used", dict(w, recorded=rec["listener"]))
                 if "target" in r and r["outcome"] in ("success", "abort-after", "error") and rec["target"] != r["target"]:
